@@ -405,7 +405,7 @@ class P14(SessionPlan):
         }
         for prof in ("pub", "sub", "pubsub"):
             for model in MODELS:
-                cfg = Cfg(profile=prof, model=model)
+                cfg = Cfg(profile=prof, model=model, onconn=(model == "sync"))
                 for sname, pre in states.items():
                     for probe in ops + pkts:
                         if probe[0] == "connect" and sname in ("lost", "lost-fresh", "refused"):
@@ -490,6 +490,12 @@ def hostile_blobs(tier, seed):
              rc.encode({"t": "UNSUBACK", "id": 4}), rc.encode({"t": "PINGRESP"}),
              rc.encode({"t": "CONNECT", "clean": True, "keepalive": 1, "clientId": "x"}), rc.encode({"t": "SUBSCRIBE", "id": 1, "topics": [("a", 0)]}),
              rc.encode({"t": "UNSUBSCRIBE", "id": 1, "topics": ["a"]}), rc.encode({"t": "PINGREQ"}), rc.encode({"t": "DISCONNECT"})]
+    for kind in ("PUBACK", "PUBREC", "PUBREL", "PUBCOMP", "UNSUBACK", "SUBACK"):
+        for ident in range(1, 12):      # acknowledgements of every type for identifiers that are (or were) in use
+            p = {"t": kind, "id": ident}
+            if kind == "SUBACK":
+                p["codes"] = [0]
+            yield rc.encode(p)
     for v in valid:
         yield v
         for i in range(len(v)):
@@ -608,11 +614,14 @@ class P18(SessionPlan):
 
     def extra_cases(self, tier, seed):
         alpha = [("disconnect", 0), ("pub", 0, 0), ("pub", 0, 1), ("sub", 0, "str", 1, 1), ("unsub", 0, "str", 1), ("tick",), ("adv", 6),
-                 ("raw", 0, b"\xf0\x00"), ("lose", 0, "done")]
+                 ("raw", 0, b"\xf0\x00"), ("lose", 0, "done"), ("raw", 0, b"\x90\x01\x00"), ("connect", 0, True, 0, 4)]
         depth = 3 if tier == "quick" else 4
         cs = [Cfg(profile=p, model="tcp", close_delay=d, re_pub_on_fail=r) for p in ("pubsub", "pub", "sub") for d in (0.0, 20.0) for r in (False, True)]
         cs += [Cfg(profile="pubsub", model="sync", re_pub_on_fail=True)]
         cs += [Cfg(profile="pubsub", model=m, close_delay=5.0, re_disc_on=w) for m in MODELS for w in ("ack", "suback", "onpublish", "connmade", "connected")]
         alpha = alpha + [("ack", 0, "PUBACK", "old"), ("ack", 0, "SUBACK", "old"), ("inpub", 0, 1)]
         pre = connected(ka=5, win=2) + [("pub", 0, 1), ("pub", 0, 2), ("sub", 0, "str", 1, 0)]
-        return sweep_cases("closing-sweep", cs, pre, alpha, depth)
+        return itertools.chain(
+            sweep_cases("closing-sweep", cs, pre, alpha, depth),
+            sweep_cases("connecting-sweep", cs[:6], [("build", 0), ("connect", 0, True, 5, 4)],
+                        alpha + [("connack", 0, 0, False), ("connack", 0, 3, False)], depth))
